@@ -1,4 +1,5 @@
-// C16: parse_pdf_obj under a depth bound; reports the context's depth after the call.
+// C16: parse_pdf_obj under a depth bound; reports the context's depth after the call, from a fresh context, from a
+// context whose depth is already k0 (`at`), and over several parses on one context (`seq`).
 // Every case runs on a thread with a FIXED 1 MiB stack (what a worker thread of a user of the crate would
 // have), so that the verdict on wide / long inputs does not depend on the 8 MiB of the main thread: stack use
 // that grows with the WIDTH or LENGTH of the input (instead of the nesting bound d) overflows it and kills
@@ -182,37 +183,38 @@ fn big_bytes(w: &[&str]) -> Option<Vec<u8>> {
     Some(out)
 }
 
-fn run_case(line: &str) -> String {
-    let w: Vec<&str> = line.split_whitespace().collect();
+// one parse of the input described by `w` (a `nest` / `cut` / `deep` / `wide` / `run` case WITH its bound word) on the
+// given context, whatever its current depth: result, span, cursor, depth after - depth before, value
+fn step(ctxt: &mut PDFObjContext, w: &[&str]) -> String {
     if w.len() < 3 {
         return "bad-case".to_string()
     }
-    let d: usize = match w[1].parse() {
-        Ok(d) => d,
-        Err(_) => return "bad-case".to_string(),
-    };
     let big = w[0] == "wide" || w[0] == "run";
     // `deep` cases carry a nesting profile instead of bytes: <n> copies of an opener
     let bytes = if big {
-        match big_bytes(&w) {
+        match big_bytes(w) {
             Some(b) => b,
             None => return "bad-case".to_string(),
         }
     } else if w[0] == "deep" {
-        let n: usize = w[2].parse().unwrap();
+        let n: usize = match w[2].parse() {
+            Ok(n) => n,
+            Err(_) => return "bad-case".to_string(),
+        };
         let opener: &[u8] = if w.len() > 3 && w[3] == "dict" { b"<</K " } else { b"[" };
         let mut v = Vec::with_capacity(n * opener.len());
         for _ in 0 .. n {
             v.extend_from_slice(opener);
         }
         v
-    } else {
+    } else if w[0] == "nest" || w[0] == "cut" {
         unhex(w[2])
+    } else {
+        return "bad-case".to_string()
     };
     let mut pb = ParseBuffer::new(bytes);
-    let mut ctxt = PDFObjContext::new(d);
     let before = ctxt.depth();
-    let r = parse_pdf_obj(&mut ctxt, &mut pb);
+    let r = parse_pdf_obj(ctxt, &mut pb);
     let after = ctxt.depth();
     match r {
         Ok(v) => {
@@ -226,6 +228,84 @@ fn run_case(line: &str) -> String {
         },
         Err(e) => format!("err {} {}", errk(e.val()), after as isize - before as isize),
     }
+}
+
+// a context with bound d whose current depth is k0: what a client that embeds the object parser inside its own nesting
+// gets by k0 calls of the public enter_obj()
+fn context_at(d: usize, k0: usize) -> Option<PDFObjContext> {
+    if k0 > d {
+        return None
+    }
+    let mut ctxt = PDFObjContext::new(d);
+    for _ in 0 .. k0 {
+        if !ctxt.enter_obj() {
+            return None
+        }
+    }
+    Some(ctxt)
+}
+// the client's matching leave_obj() calls; never more than the context's depth allows (the harness must not trip
+// leave_obj's assert itself when the code under test has lost a level)
+fn unwind(ctxt: &mut PDFObjContext, k0: usize) {
+    for _ in 0 .. k0 {
+        if ctxt.depth() == 0 {
+            break
+        }
+        ctxt.leave_obj();
+    }
+}
+
+// `<case>`                                   one parse on a fresh context
+// `at <k0> <case>`                           one parse on a context whose depth is already k0
+// `seq <d> <k0> ; <step> ; <step> ...`       several parses on ONE context (a step is a case without its bound word)
+fn run_case(line: &str) -> String {
+    let w: Vec<&str> = line.split_whitespace().collect();
+    if w.len() < 3 {
+        return "bad-case".to_string()
+    }
+    if w[0] == "seq" {
+        let (d, k0): (usize, usize) = match (w[1].parse(), w[2].parse()) {
+            (Ok(d), Ok(k)) => (d, k),
+            _ => return "bad-case".to_string(),
+        };
+        let mut ctxt = match context_at(d, k0) {
+            Some(c) => c,
+            None => return "bad-case".to_string(),
+        };
+        let mut outs: Vec<String> = Vec::new();
+        for st in w[3 ..].split(|x| *x == ";") {
+            if st.is_empty() {
+                continue
+            }
+            let mut sw: Vec<&str> = vec![st[0], w[1]];
+            sw.extend_from_slice(&st[1 ..]);
+            outs.push(step(&mut ctxt, &sw));
+        }
+        unwind(&mut ctxt, k0);
+        return outs.join(" ; ")
+    }
+    let (k0, cw): (usize, &[&str]) = if w[0] == "at" {
+        match w[1].parse() {
+            Ok(k) => (k, &w[2 ..]),
+            Err(_) => return "bad-case".to_string(),
+        }
+    } else {
+        (0, &w[..])
+    };
+    if cw.len() < 3 {
+        return "bad-case".to_string()
+    }
+    let d: usize = match cw[1].parse() {
+        Ok(d) => d,
+        Err(_) => return "bad-case".to_string(),
+    };
+    let mut ctxt = match context_at(d, k0) {
+        Some(c) => c,
+        None => return "bad-case".to_string(),
+    };
+    let out = step(&mut ctxt, cw);
+    unwind(&mut ctxt, k0);
+    out
 }
 
 fn run(line: &str) -> String {
